@@ -410,7 +410,9 @@ def selftest(prop):
         return tmp, dst
 
     def run_on(dst):
-        env = dict(os.environ, VERIF_REPO=dst, VERIF_SELFTEST="1", VERIF_TIER="quick")
+        # (the short solver budget is enough here: what matters is whether the change is REPORTED, by a refutation or by the
+        #  native search behind an undischarged obligation)
+        env = dict(os.environ, VERIF_REPO=dst, VERIF_SELFTEST="1", VERIF_TIER="quick", VERIF_TIMEOUT_MS="10000")
         r = subprocess.run([sys.executable, "-m", "pyvc.cli", prop, "--tier", "quick"], cwd=VERIF, env=env, capture_output=True, text=True,
                            timeout=3600)
         viol = [ln for ln in r.stdout.splitlines() if ln.startswith("VIOLATION")]
